@@ -302,6 +302,7 @@ Inductive value :=
 | VDatetime (y m d h mi s us : Z)          (* datetime.datetime exactly, naive or aware *)
 | VNpDatetime64 (c : np_conv)
 | VToPy (r : topy)                         (* any other object with a to_pydatetime attribute *)
+| VTime (h mi s us : Z)                    (* datetime.time and subclasses (isinstance): only the TIME cast treats it specially *)
 | VOther.                                  (* None, bool, other numpy scalars, str / datetime subclasses, bytearray, containers, object() ... *)
 
 Definition epoch_branch (n : Z) : result (option dt) :=
@@ -326,6 +327,7 @@ Definition parse_iso_body (x : value) : result (option dt) :=
   | VToPy ToOther => Ok None
   | VDatetime y m d h mi s us => Ok (Some (y, m, d, h, mi, s, 0))
   | VDate y m d => Ok (Some (y, m, d, 0, 0, 0, 0))
+  | VTime _ _ _ _ => Ok None
   | VOther => Ok None
   end.
 
@@ -350,11 +352,17 @@ Definition dateval_of (r : result (option dt)) : result (Z * Z * Z) := do t <- t
 Definition timeval_of (r : result (option dt)) : result (Z * Z * Z * Z) := do t <- timestamp_of r; Ok (time_of t).
 Definition cast_timestamp (x : value) : result dt := timestamp_of (parse_iso x).
 Definition cast_date (x : value) : result (Z * Z * Z) := dateval_of (parse_iso x).
-Definition cast_time (x : value) : result (Z * Z * Z * Z) := timeval_of (parse_iso x).
+(* parse_time: "if isinstance(x, datetime.time): return x" before parse_iso is consulted *)
+Definition cast_time (x : value) : result (Z * Z * Z * Z) :=
+  match x with
+  | VTime h mi s us => Ok (h, mi, s, us)
+  | _ => timeval_of (parse_iso x)
+  end.
 
 (* all four entry points on one input (parse_iso evaluated once) *)
 Definition entry_points (x : value) :=
-  let r := parse_iso x in (r, timestamp_of r, dateval_of r, timeval_of r).
+  let r := parse_iso x in
+  (r, timestamp_of r, dateval_of r, match x with VTime h mi s us => Ok (h, mi, s, us) | _ => timeval_of r end).
 
 (* ------------------------------------------------------------------ ISO renderings (specification side) *)
 Definition dig (n : Z) : N := Z.to_N (48 + n).
@@ -405,6 +413,7 @@ Definition valid_suffix (sf : suffix) : bool :=
   | _ => true
   end.
 
+Definition is_time (x : value) : bool := match x with VTime _ _ _ _ => true | _ => false end.
 Definition is_sep (x : N) : bool := N.eqb x cT || N.eqb x cSp.
 Definition not_minus (sf : suffix) : bool := match sf with SMinus _ _ _ => false | _ => true end.
 (* a valid calendar date-time with whole seconds *)
